@@ -1331,3 +1331,36 @@ def _mk_unimap(name):
 
 for _n in ('SimpleFold', 'ToLower', 'ToUpper'):
     MODELS['unicode.' + _n] = _mk_unimap(_n)
+
+
+# strings.Cut / CutPrefix / CutSuffix (Go 1.23 routes them through internal/stringslite) --------------------------
+@model('strings.Cut', 'internal/stringslite.Cut')
+def _strings_cut(I, st, args):
+    s, sep = args
+    alts = []
+    for c, i in index_alts(s, sep):
+        if c is False:
+            continue
+        if isinstance(i, int) and i < 0:
+            alts.append((c, Tup((s, Str(), False))))
+        else:
+            alts.append((c, Tup((Str(s[:i]), Str(s[i + len(sep):]), True))))
+    return as_alts(alts)
+
+
+@model('strings.CutPrefix', 'internal/stringslite.CutPrefix')
+def _strings_cutprefix(I, st, args):
+    s, p = args
+    if len(s) < len(p):
+        return Tup((s, False))
+    c = match_at(s, 0, p)
+    return as_alts([(c, Tup((Str(s[len(p):]), True))), (mk_not(c), Tup((s, False)))])
+
+
+@model('strings.CutSuffix', 'internal/stringslite.CutSuffix')
+def _strings_cutsuffix(I, st, args):
+    s, p = args
+    if len(s) < len(p):
+        return Tup((s, False))
+    c = match_at(s, len(s) - len(p), p)
+    return as_alts([(c, Tup((Str(s[:len(s) - len(p)]), True))), (mk_not(c), Tup((s, False)))])
